@@ -22,6 +22,8 @@ func TestVerifC05HS(t *testing.T) {
 		c05SuitesPart(),
 		c05KUDerivePart(),
 		c05RetryPart(),
+		c05SetupInstallPart(),
+		c05SetupHandshakePart(),
 		c05KeyUpdatePart("keyupdate-v1", c05KUConfig{version: protocol.Version1, suite: ref5.TLS_AES_128_GCM_SHA256, first: 1, interval: 1, monitor: true, tier: 0, extraDepth: 1}),
 		c05KeyUpdatePart("keyupdate-v1-i2", c05KUConfig{version: protocol.Version1, suite: ref5.TLS_AES_256_GCM_SHA384, first: 2, interval: 2, monitor: true, tier: 0}),
 		c05KeyUpdatePart("keyupdate-v1-late", c05KUConfig{version: protocol.Version1, suite: ref5.TLS_AES_128_GCM_SHA256, first: 1, interval: 1, monitor: true, tier: 0, late: true, lateDepth: [2]int{6, 8}}),
